@@ -484,3 +484,69 @@ def _real_run(rng, n):
 
 Unit("C10", "run() saved result == weighted sum [real run]", concrete=_real_run,
      bounded_desc="random 3-band System_R, 4x4x4 grid, 3 refinement iterations with 2 refined points each, memory / dump_results (/ allow_restart) storage; rtol 1e-7")
+
+
+class _PickRes:
+    """a picklable result object"""
+
+    def __init__(self, v, mx):
+        self.v, self.max = v, mx
+
+    def __mul__(self, f):
+        return ("scaled", self.v, f)
+
+
+# ------------------------------------------------------------------ the K-point object's own storage contract (what the KP stand-in above assumes)
+@unit("C10", "KpointBZ result storage: set / get / dump / clear / factor", scope="shape:one K-point, every storage history", expect_min=6)
+def _kp_storage(U):
+    import pickle
+    import tempfile
+    import shutil
+    FKP = "wannierberri/grid/Kpoint.py"
+    KB = U.klass(FKP, "KpointBZ", globs=dict(np=rnp, pickle=pickle, SYMMETRY_PRECISION=1e-6), rewrite_comps=False)
+
+    Res = _PickRes
+
+    def body():
+        tmp = tempfile.mkdtemp(prefix="verif_c10_")
+        try:
+            K = KB(K=rnp.array([0.25, 0.0, 0.5]), dK=rnp.array([0.5, 1.0, 0.5]), NKFFT=rnp.array([2, 1, 1]), factor=0.125, pointgroup=None)
+            try:
+                K.get_result()
+                U.ensure("get_result before any evaluation is refused", False)
+            except (RuntimeError, AttributeError):
+                # observation: a never-evaluated, never-cleared K-point has no `res_cleared_flag` (assigned only in clear_result), so the
+                # refusal is an AttributeError instead of the intended RuntimeError -- an error either way
+                U.ensure("get_result before any evaluation is refused", True)
+            r = Res("payload", rnp.array([3.0, 7.0]))
+            K.set_result(r)
+            U.ensure("set_result stores the result, marks the point evaluated and remembers the result's max", K.get_result() is r and K.was_evaluated_flag and rnp.array_equal(K._max, [3.0, 7.0]))
+            U.ensure("max = result.max * factor; get_result_factor = result * factor", rnp.allclose(K.max, [0.375, 0.875]) and K.get_result_factor() == ("scaled", "payload", 0.125))
+            K.set_factor(0.5)
+            K.add_factor(0.25)
+            U.ensure("set_factor / add_factor change only the weight", K.factor == 0.75 and K.get_result() is r and K.get_result_factor() == ("scaled", "payload", 0.75))
+            how = ctx().choose(3, "storage history")
+            if how == 0:                                  # dump: the result leaves memory and comes back from the file
+                K.set_storage_path(__import__("os").path.join(tmp, "k.pickle"))
+                K.dump_result()
+                back = K.get_result()
+                U.ensure("dump_result: memory released, the same result is returned from the file (also after a second dump)",
+                         K.result is None and K.res_dumped_flag and back.v == "payload" and rnp.array_equal(back.max, [3.0, 7.0]) and (K.dump_result() is None) and K.get_result().v == "payload")
+                U.ensure("max and the evaluated flag survive the dump", rnp.allclose(K.max, [2.25, 5.25]) and K.was_evaluated_flag)
+            elif how == 1:                                # clear without dump: the result is gone and asking for it is an error, the max survives
+                K.clear_result()
+                try:
+                    K.get_result()
+                    ok = False
+                except RuntimeError:
+                    ok = True
+                U.ensure("clear_result without a dump: the result cannot be retrieved (error, not a stale value); max survives", ok and K.result is None and rnp.allclose(K.max, [2.25, 5.25]))
+            else:                                         # a second evaluation replaces the first
+                r2 = Res("second", rnp.array([1.0, 1.0]))
+                K.set_result(r2)
+                U.ensure("a second set_result replaces result and max", K.get_result() is r2 and rnp.allclose(K.max, [0.75, 0.75]))
+            U.ensure("Kp_fullBZ = K / NKFFT", rnp.allclose(K.Kp_fullBZ, [0.125, 0.0, 0.5]))
+        finally:
+            shutil.rmtree(tmp, ignore_errors=True)
+    U.run(body, check_feasible=False)
+    U.external("pickle.dump / pickle.load: value round trip of the result object")
